@@ -153,7 +153,20 @@ def run(ctx):
             p = os.path.join(root, "t.conf")
             open(p, "wb").write(c)
             tool = ["robsd-config", "robsd-ls", "robsd-hook", "robsd-step"][0 if which == 0 else rng.randint(0, 3)]
-            if tool == "robsd-config":
+            many = tool == "robsd-config" and rng.random() < 0.25
+            if many:
+                # a template of many lines each of which fails on its own: self reference, mutual
+                # recursion, a chain that is too deep, unknown variable, malformed reference
+                c = base
+                open(p, "wb").write(c)
+                bad = [b"${loop}", b"x ${ping} y", b"${d1}", b"${nosuch}", b"${", b"$x", b"${}", b"ok ${arch}"]
+                k = rng.choice([2, 5, 6, 7, 12, 40])
+                one = rng.choice(bad[:3]) if rng.random() < 0.5 else None
+                tm = b"\n".join((one or rng.choice(bad)) for _ in range(k)) + b"\n"
+            if tool == "robsd-config" and many:
+                argv = ["-m", mode, "-C", p, "-v", "loop=${loop}", "-v", "ping=${pong}", "-v", "pong=${ping}", "-v", "d1=${d2}", "-v", "d2=${d3}",
+                        "-v", "d3=${d4}", "-v", "d4=${d5}", "-v", "d5=${d6}", "-v", "d6=x", "-"]
+            elif tool == "robsd-config":
                 argv = ["-m", mode, "-C", p, "-"]
             elif tool == "robsd-ls":
                 argv = ["-m", mode, "-C", p]
@@ -169,6 +182,10 @@ def run(ctx):
             # ---- step file, read
             f = bytes(rng.randint(0, 255) for _ in range(rng.randint(0, 120))) if raw else (step if rng.random() < 0.3 else mutate(rng, step))
             tm = mutate(rng, tmpl) if rng.random() < 0.5 else tmpl
+            if not raw and rng.random() < 0.2:
+                # fields that refer to themselves or to each other, asked for on many lines
+                f = step.replace(b"root", b"${user}", 1) if rng.random() < 0.5 else step.replace(b"root", b"${log}", 1).replace(b".log", b"${user}", 1)
+                tm = b"\n".join(rng.choice([b"${user}", b"${log} ${user}", b"${name}", b"${nosuch}"]) for _ in range(rng.choice([1, 5, 6, 7, 20]))) + b"\n"
             p = os.path.join(root, "step.csv")
             open(p, "wb").write(f)
             if rng.random() < 0.7:
